@@ -1,5 +1,6 @@
 import Nervus.Driver.Util
 import Nervus.Model.SnapLTS
+import Nervus.Model.Generated.PubOrder
 /-!
   `snapsched` stream (C03): drives `Nervus.SnapLTS.step` with the schedule of the op lines and prints
   what each snapshot shows; spec-out = the views of the Spec states inside the acquisition window
@@ -13,6 +14,7 @@ structure St where
   names : List (String × Nat × Option String)   -- snapshot name ↦ (index, first consistent token shown)
   next : Nat
   ready : Bool
+  bg : Bool := false     -- a compactor thread is waiting for the writer lock
 
 def setStr (l : List Nat) : String :=
   match canon l with
@@ -46,6 +48,10 @@ def runN (s : SnapLTS.State) (l : Label) : Nat → SnapLTS.State
     | some s' => runN s' l n
     | none => s
 
+/-- `compact()` begins: if the source reads the run list before taking the writer lock, that read happens now -/
+def readRuns (s : SnapLTS.State) : SnapLTS.State :=
+  if s.readBeforeLock then runN s .compactRead 1 else s
+
 /-- run the writer's current operation to its end -/
 def finishWriter (s : SnapLTS.State) : SnapLTS.State :=
   match s.w with
@@ -76,7 +82,8 @@ def triggers (s : SnapLTS.State) (σ : Snap) : String :=
 
 def step (st : St) (ws : List String) : St × String × String × String :=
   match ws with
-  | ["setup", idx] => ({ m := SnapLTS.init (idx == "index"), names := [], next := 0, ready := true }, "ok", "-", "")
+  | ["setup", idx] =>
+    ({ m := SnapLTS.init (idx == "index") (!Generated.compactRunsReadUnderLock), names := [], next := 0, ready := true }, "ok", "-", "")
   | _ =>
   if !st.ready then (st, "bad-op", "-", "") else
   match ws with
@@ -85,7 +92,7 @@ def step (st : St) (ws : List String) : St × String × String × String :=
     ({ st with m := runN st.m .commitStep 4 }, "ok", "ok", "")
   | ["compact"] =>
     if st.m.w != .idle then (st, "writer-busy", "-", "") else
-    ({ st with m := runN st.m .compactStep 6 }, "ok", "ok", "")
+    ({ st with m := runN (readRuns st.m) .compactStep 6 }, "ok", "ok", "")
   | ["tx_until", p] =>
     match commitStage p with
     | some k => if st.m.w != .idle then (st, "writer-busy", "-", "") else
@@ -95,8 +102,20 @@ def step (st : St) (ws : List String) : St × String × String × String :=
     match compactStage p with
     | some k => if st.m.w != .idle then (st, "writer-busy", "-", "") else
       if st.m.runs.isEmpty then (st, "ok", "-", "") else
-      ({ st with m := runN st.m .compactStep k }, "parked", "-", "")
+      ({ st with m := runN (readRuns st.m) .compactStep k }, "parked", "-", "")
     | none => (st, "bad-op", "-", "")
+  | ["compact_bg"] =>
+    -- `compact()` on another thread.  Writer at rest: it runs to its end.  Writer in flight (it holds the
+    -- writer lock): the compactor waits for the lock — after its read of the run list if the source reads first.
+    if st.bg then (st, "bad-op", "-", "") else
+    let m1 := readRuns st.m
+    if st.m.w == .idle then ({ st with m := runN m1 .compactStep 6 }, "ok", "ok", "")
+    else if st.m.readBeforeLock && m1.cap.isNone then ({ st with m := m1 }, "ok", "ok", "")   -- saw no runs: returned
+    else ({ st with m := m1, bg := true }, "blocked", "-", "")
+  | ["compact_join"] =>
+    if !st.bg then (st, "no-compactor", "-", "") else
+    if st.m.w != .idle then (st, "writer-busy", "-", "") else
+    ({ st with m := runN st.m .compactStep 6, bg := false }, "ok", "ok", "")
   | ["resume"] =>
     if st.m.w == .idle then (st, "no-writer", "-", "") else
     ({ st with m := finishWriter st.m }, "ok", "ok", "")
